@@ -35,6 +35,26 @@ impl Violation {
     }
 }
 
+/// Determinism self-test (DESIGN.md 5): when on, every run contributes one
+/// digest line (outcome, output hashes, event trace hash) to its summary.
+pub static DIGEST: std::sync::atomic::AtomicBool = std::sync::atomic::AtomicBool::new(false);
+
+pub fn digest_on() -> bool {
+    DIGEST.load(std::sync::atomic::Ordering::Relaxed)
+}
+
+/// Sorts the digest lines of a merged summary, writes them to `out` and
+/// returns (count, hash).
+pub fn write_digests(merged: &Value, out: Option<&Path>) -> (usize, u64) {
+    let mut lines: Vec<String> = merged.get("digests").and_then(|d| d.as_array()).map(|a| a.iter().filter_map(|x| x.as_str().map(|s| s.to_string())).collect()).unwrap_or_default();
+    lines.sort();
+    let text = lines.join("\n");
+    if let Some(o) = out {
+        let _ = std::fs::write(o, &text);
+    }
+    (lines.len(), crate::prng::fnv64(text.as_bytes()))
+}
+
 pub struct Paths {
     pub verif: PathBuf,
     pub repo: PathBuf,
